@@ -205,11 +205,8 @@ def gen_item(rng, names=None, want_enum=None, allow_attrs=True, plain=False, abs
                 for _ in range(rng.choice([1, 2, 2])):
                     t = rng.choice(ctxs)(t)
                 c.append(t)
-        if has_T and not dflt and not any(t in traits for t in ('PartialEq', 'Eq', 'PartialOrd', 'Ord')):
-            # (comparing function pointers is linted: only under Clone / Copy / Debug / Hash)
-            # a type with a higher-ranked lifetime, offered several times so that two fields may share it: the same bound
-            # stated twice is ambiguous for rustc (F40)
-            c += [f'fn(&{T}) -> bool'] * 3
+        # (types with a higher-ranked lifetime offered several times: `gen_dup_field_case`; not here, where `bound(..)` lists are
+        # generated per field and per variant — a predicate the *user* states twice is ambiguous in a hand-written impl too)
         if has_U:
             c += [U, f'({T}, {U})']
         if gkind == 'Tsrc':
